@@ -24,9 +24,9 @@ func GosymH_C05_balance() {
 	bal.MinMtime = gosym_Int64Range("minmtime", 1, 1<<40)
 	bal.KeepServices = map[string]*KeepService{}
 	var mnts []*KeepMount
-	var dev []string   // physical device of each mount
-	var inC2 []bool    // mount serves class c2
-	var inDef []bool   // mount serves class default
+	var dev []string // physical device of each mount
+	var inC2 []bool  // mount serves class c2
+	var inDef []bool // mount serves class default
 	for i := 0; i < nsrv; i++ {
 		uuid := "zzzzz-bi6l4-00000000000000" + gosymSfx[i]
 		if symUUID {
